@@ -54,6 +54,20 @@ def parsePricingIn (t : List String) : Option (Option PricingIn) :=
 
 def provs (s : String) : List Addr := splitList "," s
 
+def hexNat (s : String) : Option Nat :=
+  s.toList.foldl (fun acc c => match acc, hexVal c with
+    | some a, some v => some (a * 16 + v)
+    | _, _ => none) (some 0)
+
+/-- a well-formed request id: 116 hex digits = context id (80) ‖ batch (16) ‖ height (16) ‖ index (4) -/
+def parseRid (s : String) : Option ReqId :=
+  if s.length = 116 && isHex s then
+    let l := s.toLower
+    match hexNat ((l.drop 80).take 16).toString, hexNat ((l.drop 96).take 16).toString, hexNat ((l.drop 112).take 4).toString with
+    | some b, some h, some i => some ⟨(l.take 80).toString, b, (h : Int), i⟩
+    | _, _, _ => none
+  else none
+
 def parseOp (t : List String) : Option Op :=
   match t with
   | "service" :: "define" :: r => do
@@ -100,7 +114,7 @@ def parseOp (t : List String) : Option Op :=
       | "bad" => some OutKind.bad
       | "none" => some OutKind.none
       | _ => none
-    some (.respond (arg r "provider") (dash (arg r "req")) code out (arg r "res" ≠ "0"))
+    some (.respond (arg r "provider") (parseRid (dash (arg r "req"))) code out (arg r "res" ≠ "0"))
   | "service" :: "withdraw" :: r => some (.withdraw (arg r "owner") (arg r "provider"))
   | "service" :: "withdraw_k" :: r =>
     some (.withdrawK (arg r "owner") (if arg r "provider" = "-" then none else some (arg r "provider")))
@@ -194,13 +208,13 @@ def showState (s : State) (denoms : List Denom) : String :=
     let c := e.2
     s!"{e.1}:{c.svc}:{c.consumer}:{undash (joinWith "+" c.providers)}:{coinStr base c.cap}:{c.timeout}:{b2s c.repeated}:{c.freq}:{c.total}:{c.batchCounter}:{c.batchReqCount}:{c.batchRespCount}:{c.batchRespThreshold}:{batchStateNum c.batchState}:{ctxStateNum c.state}:{c.respThreshold}:{undash c.moduleName}"
   let reqs := s.reqs.map fun e =>
-    s!"{e.1}:{e.2.provider}:{coinStr e.2.feeDenom e.2.feeAmt}:{e.2.reqH}:{e.2.expH}:{e.2.ctx}/{e.2.batch}"
+    s!"{e.1.toHex}:{e.2.provider}:{coinStr e.2.feeDenom e.2.feeAmt}:{e.2.reqH}:{e.2.expH}:{e.2.ctx}/{e.2.batch}"
   let actb := s.active.map fun rid =>
     match AMap.get? s.reqs rid with
-    | none => s!"?/?/?/{rid}"
-    | some rq => s!"{(getCtx s rq.ctx).svc}/{rq.provider}/{rq.expH}/{rid}"
+    | none => s!"?/?/?/{rid.toHex}"
+    | some rq => s!"{(getCtx s rq.ctx).svc}/{rq.provider}/{rq.expH}/{rid.toHex}"
   let resps := s.resps.map fun e =>
-    s!"{e.1}:{e.2.provider}:{e.2.consumer}:{b2s e.2.hasOut}:{e.2.ctx}/{e.2.batch}"
+    s!"{e.1.toHex}:{e.2.provider}:{e.2.consumer}:{b2s e.2.hasOut}:{e.2.ctx}/{e.2.batch}"
   let vols := s.vols.map fun e => s!"{e.1.1}/{e.1.2.1}/{e.1.2.2}:{e.2}"
   let earned := s.earned.map fun e => s!"{e.1.1}/{e.1.2}:{e.2}"
   let oearned := s.oearned.map fun e => s!"{e.1.1}/{e.1.2}:{e.2}"
@@ -211,7 +225,7 @@ def showState (s : State) (denoms : List Denom) : String :=
   let bals := (printAccts.flatMap fun a => denoms.filterMap fun d =>
     let b := Bank.balOf s.bank a d
     if b = 0 then none else some s!"{a}/{d}:{b}")
-  s!"h={s.height} t={s.time} idx={s.idx} rates={joinS rates} defs={joinS defs} binds={joinS binds} own={joinS own} ownp={joinS ownp} wd={joinS wd} ctxs={joinS ctxs} reqs={joinS reqs} act={joinS s.active} actb={joinS actb} resps={joinS resps} vols={joinS vols} earned={joinS earned} oearned={joinS oearned} newq={joinS newq} newh={joinS newh} expq={joinS expq} exph={joinS exph} bals={joinS bals} cb={undash (joinWith "," (s.cb.map cbStr))}"
+  s!"h={s.height} t={s.time} idx={s.idx} rates={joinS rates} defs={joinS defs} binds={joinS binds} own={joinS own} ownp={joinS ownp} wd={joinS wd} ctxs={joinS ctxs} reqs={joinS reqs} act={joinS (s.active.map ReqId.toHex)} actb={joinS actb} resps={joinS resps} vols={joinS vols} earned={joinS earned} oearned={joinS oearned} newq={joinS newq} newh={joinS newh} expq={joinS expq} exph={joinS exph} bals={joinS bals} cb={undash (joinWith "," (s.cb.map cbStr))}"
 
 def resWord : Except Err State → String
   | .ok _ => "ok"
